@@ -1,11 +1,43 @@
 # -*- coding: utf-8 -*-
 
-from typing import Any, Dict, List, Optional
+from typing import Any, Dict, List, Mapping, Optional, Sequence
 
 from ..exc import ValidationError
-from ..lang.ast import Document, Field, OperationDefinition
+from ..lang.ast import (
+    Document,
+    FragmentDefinition,
+    OperationDefinition,
+    Selection,
+)
 from ..schema import Schema
-from .collect_fields import selected_fields
+from .collect_fields import collect_fields_untyped
+
+
+def _nesting_levels(
+    selections: Sequence[Selection],
+    fragments: Mapping[str, FragmentDefinition],
+    variables: Mapping[str, Any],
+) -> int:
+    """
+    Number of nested field levels selected by a selection set.
+
+    Inline fragments and fragment spreads are traversed at any level and
+    ``@skip`` / ``@include`` are honoured. Fields sharing a response key are
+    merged (as they are during execution) so all their sub-selections count.
+    """
+    levels = 0
+    collected = collect_fields_untyped(selections, fragments, variables)
+    for fields in collected.values():
+        subselections = [
+            selection
+            for field in fields
+            if field.selection_set is not None
+            for selection in field.selection_set.selections
+        ]
+        levels = max(
+            levels, 1 + _nesting_levels(subselections, fragments, variables)
+        )
+    return levels
 
 
 class MaxDepthValidationRule:
@@ -72,16 +104,15 @@ class MaxDepthValidationRule:
             ):
                 continue
 
-            paths = (
-                p
-                for f in op.selection_set.selections
-                if isinstance(f, Field)
-                for p in selected_fields(
-                    f, fragments=fragments, variables=variables, maxdepth=None,
+            # Depth is the number of levels nested below the root fields, so
+            # a flat (or empty after @skip / @include) operation has depth 0.
+            depth = max(
+                0,
+                _nesting_levels(
+                    op.selection_set.selections, fragments, variables
                 )
+                - 1,
             )
-
-            depth = max(x.count("/") + 1 for x in paths)
 
             if depth > self.max_depth:
                 errors.append(
